@@ -40,6 +40,7 @@ impl Stream for HashStream {
 }
 
 pub fn run(out: &mut Out, seed: u64, thorough: bool, replay: Option<&str>) {
+    out.stateless = true;
     let mut s = HashStream;
     if let Some(p) = replay {
         return replay_file(&mut s, out, p);
